@@ -878,7 +878,10 @@ Proof.
   assert (Hl : lfr r (r <| r_log := l' |>)).
   { split; [destruct r; reflexivity|exact Hx]. }
   destruct b'.
-  - destruct (get_pr r (r_id r)) as [ps|] eqn:Hgs; [|discriminate]. inversion H; subst r' cm; clear H.
+  - destruct (get_pr r (r_id r)) as [ps|] eqn:Hgs.
+    2:{ inversion H; subst r' cm; clear H.
+        split; [exact Hl|]. split; [apply mext_same; reflexivity|]. split; [exact Hg|]. auto. }
+    inversion H; subst r' cm; clear H.
     split; [eapply lfr_trans; [exact Hl|apply put_pr_lfr]|]. split; [apply mext_same; reflexivity|].
     split.
     { rewrite get_pr_put_other.
